@@ -339,7 +339,7 @@ Upd(ev) ==
   /\ popped' = (IF ev.a = "UserPop" THEN [popped EXCEPT ![e] = @ \cup {ev.i.id}] ELSE popped)
   /\ closed' = (IF ev.a = "Closed" THEN [closed EXCEPT ![e] = TRUE] ELSE closed)
   /\ termReq' = (IF ev.a = "UserTerm" /\ ev.i.ok THEN [termReq EXCEPT ![e] = TRUE] ELSE termReq)
-  /\ closeReq' = (IF ev.a \in {"UserClose", "PeerEof"} THEN [closeReq EXCEPT ![e] = TRUE] ELSE closeReq)
+  /\ closeReq' = (IF ev.a = "UserClose" THEN [closeReq EXCEPT ![e] = TRUE] ELSE closeReq)
   /\ idleFired' = (IF ev.a = "Cb" /\ ev.n = "idle" THEN [idleFired EXCEPT ![e] = TRUE] ELSE idleFired)
   /\ esc' = (IF ev.a = "Escape" /\ ~ev.i.user THEN [esc EXCEPT ![e] = @ + 1] ELSE esc)
   /\ lastView' = (IF ev.a \in {"View", "Final"} THEN [lastView EXCEPT ![e] = ev.v] ELSE lastView)
